@@ -38,7 +38,8 @@ DROPPED = [
     "control-block claim of C15 is NOT decided by this unit (BitStack128, which the iterator relies on, is proved)",
     "Miniscript::encode is stubbed in the Merkle harness by the `<n> OP_CSV` template for the older(n) leaves used",
 ]
-KANI_ARGS = []
+# one SAT call for all assertions instead of one reachability query per assertion; vacuity is guarded by kani::cover!
+KANI_ARGS = ["--no-assertion-reach-checks"]
 
 _BS = ["C15:bitstack_push.height_plus_one", "C15:bitstack_push.sets_top_bit", "C15:bitstack_push.lower_bits_unchanged",
        "C15:bitstack_push.frame_all_other_bits"]
